@@ -101,6 +101,20 @@ theorem cubic_executed_deriv {x lcw s d0 d1 w d : ℝ} (hw : 0 < w) :
   have := (HasDerivAt.comp x hp hsub).add_const d
   simpa using this
 
+/-- **Linear spline bin** (linear.py:86-101): on bin `k` of `K` equal-width bins the forward map is
+    `x ↦ c + (x·K − k)·p` with `p > 0` the bin's softmax mass; its derivative is `K·p`, and the code returns
+    `log p − log(1/K)`. -/
+theorem linear_bin_logdet (c p : ℝ) (K k : ℕ) (hK : 0 < K) (hp : 0 < p) (x : ℝ) :
+    HasDerivAt (fun x : ℝ => c + (x * K - k) * p) (Real.exp (Real.log p - Real.log (1 / (K : ℝ)))) x := by
+  have hKr : (0:ℝ) < K := by exact_mod_cast hK
+  have hd : HasDerivAt (fun x : ℝ => c + (x * K - k) * p) ((K : ℝ) * p) x := by
+    have h1 : HasDerivAt (fun x : ℝ => x * (K:ℝ) - k) (K : ℝ) x := by
+      simpa using ((hasDerivAt_id x).mul_const (K:ℝ)).sub_const (k:ℝ)
+    simpa using (h1.mul_const p).const_add c
+  refine hd.congr_deriv ?_
+  rw [Real.exp_sub, Real.exp_log hp, Real.exp_log (by positivity)]
+  field_simp
+
 /-- **Box rescaling** (linear / quadratic / cubic splines after the repair): if the normalised map `F` has
     derivative `exp ℓ` at `(x-left)/(right-left)`, the rescaled map `bottom + (top-bottom)·F((x-left)/(right-left))`
     has derivative `exp (ℓ + log((top-bottom)/(right-left)))`. -/
